@@ -29,6 +29,7 @@ MODULES = {
     'C06': 'harness.c06',
     'C07': 'harness.c07',
     'C08': 'harness.c08',
+    'C12': 'harness.c12',
 }
 
 
@@ -146,7 +147,7 @@ def finish(pid, a, mod, jobs, results, seed, t0, extra=None):
     functions = set()
     solver = dict(queries=0, sat=0, unsat=0, unknown=0, solver_seconds=0.0,
                   max_query_seconds=0.0)
-    paths = feas = twins = twins_ok = diffs = 0
+    paths = feas = twins = twins_ok = diffs = canon_checks = 0
     samples = []
     per_case = {}
     for (case, modname, fname, cfg, opts), r in zip(jobs, results):
@@ -160,6 +161,7 @@ def finish(pid, a, mod, jobs, results, seed, t0, extra=None):
         twins += r.twins
         twins_ok += r.twins_ok
         diffs += r.diffchecks
+        canon_checks += getattr(r, 'canon_checks', 0)
         functions.update(r.functions)
         pc = per_case.setdefault(case, dict(configs=0, obligations=0,
                                             discharged=0, paths=0,
@@ -245,6 +247,7 @@ def finish(pid, a, mod, jobs, results, seed, t0, extra=None):
             feasibility_queries=feas, solver=solver,
             vacuity_twins=dict(run=twins, refuted_as_required=twins_ok),
             differential_float_checks=diffs,
+            canonical_stage_validations=canon_checks,
             checker_cmd='./check %s --tier %s' % (pid, a.tier),
             trusted_base=getattr(mod, 'TRUSTED', []),
             functions_encoded=sorted(functions),
